@@ -102,7 +102,7 @@ def zipAdd (a b : List R) : List R := List.zipWith (· + ·) a b
 
 /-- `__add__` -/
 def LP.add (p q : LP R) : Except Err (LP R) :=
-  if p.iszero then .ok (LP.mk' q.coefs q.dmin)
+  if p.iszero then .ok (if q.iszero then LP.mk' [] q.dmin else LP.mk' q.coefs q.dmin)
   else if q.iszero then .ok (LP.mk' p.coefs p.dmin)
   else if p.parity ≠ q.parity then .error .parity
   else
